@@ -113,6 +113,24 @@ Manifest(c) ==
   ELSE IF \E f \in VisNames(c) : Get(c, f, Top(c), Fuel).k = "err" THEN Err("field")
   ELSE [k |-> "obj", fs |-> {[f |-> f, n |-> Get(c, f, Top(c), Fuel).n] : f \in VisNames(c)}]
 
+\* ------------------------------------------------------------------ call by need: the definitions a read runs
+\* Used(c, f, s): the member definitions <<layer, name>> whose bodies are evaluated when field f is read with
+\* bound s - the top-most unmasked definition, what its body reads, and for `+:` the inherited value. Every other
+\* definition of the chain (overridden, masked by a removed key, of another field) is never evaluated, so it may
+\* hold an error without the read noticing (C03). Meaningful when the read yields a number.
+RECURSIVE Used(_, _, _, _), UsedBody(_, _, _, _)
+Used(c, f, s, fuel) ==
+  IF fuel = 0 THEN {}
+  ELSE LET D == Defs(c, f, s) IN
+       IF D = {} THEN {}
+       ELSE LET j == Max(D) m == c[j].ms[f] IN
+            {<<j, f>>} \cup UsedBody(c, j, m.b, fuel - 1) \cup (IF m.plus THEN Used(c, f, j, fuel - 1) ELSE {})
+UsedBody(c, j, b, fuel) ==
+  IF fuel = 0 THEN {}
+  ELSE CASE b.k \in {"self", "dollar", "local", "selfplus"} -> Used(c, b.g, Top(c), fuel)
+         [] b.k \in {"super", "superplus"} -> Used(c, b.g, j, fuel)
+         [] OTHER -> {}
+
 \* ================================================================== part 2: implementation-shaped
 \* cores are visited from the top; an Omit core sets skip := max(skip, k + 1); skip saturates at 0
 Dec(n) == IF n = 0 THEN 0 ELSE n - 1
@@ -246,5 +264,6 @@ Emit ==
     PrintT("REPLAY " \o ToJson([fam |-> "objects." \o Family, chain |-> c,
       obs |-> [f \in Names |-> [get |-> Observe(c, f), vis |-> VisOf(c, f, Top(c)), has |-> HasAll(c, f, Top(c))]],
       fields |-> VisNames(c), fieldsAll |-> AllNames(c),
-      manifest |-> Manifest(c), asserts |-> HasAsserts(c), super |-> SuperProbes(c)]))
+      manifest |-> Manifest(c), asserts |-> HasAsserts(c), super |-> SuperProbes(c),
+      used |-> [f \in Names |-> Used(c, f, Top(c), Fuel)]]))
 =============================================================================
